@@ -43,12 +43,15 @@ fn sdi(data: &[u8]) -> Vec<u8> {
 pub const INNER: [usize; 15] = [0, 1, 2, 3, 4, 5, 6, 7, 8, 9, 12, 13, 14, 15, 16];
 
 /// first event id of the packed frames (letters 0..SINGLE-1 are single PDUs)
-pub const SINGLE: usize = 17;
+pub const SINGLE: usize = 18;
 
 /// number of events explored per state by the BFS: the 12 letters, letter 12 (set-error-info with a non-zero code),
 /// letter 13 (deactivate-all naming another share id), letter 14 (a font list sent by the server), letter 15 (a font map whose mapFlags are 0) and every ordered pair of INNER letters packed into ONE frame
 pub fn n_bfs_events() -> usize {
-    SINGLE + INNER.len() * INNER.len()
+    // (event ids are u8 in the histories: the alphabet must stay below 256)
+    let n = SINGLE + INNER.len() * INNER.len();
+    assert!(n <= 255, "VERIF: the BFS alphabet no longer fits the u8 event ids");
+    n
 }
 
 /// letters carried by an event: one for 0..=12, two for a packed frame
@@ -92,6 +95,7 @@ pub fn event_name(ev: usize) -> String {
         14 => "font-list(a client PDU, same layout as the font map, sent by the server)".to_string(),
         15 => "font-map(mapFlags 0)".to_string(),
         16 => "share-control PDU of a type the client does not implement (server redirection, 0x1A)".to_string(),
+        17 => "demand-active(B) with an empty capability list".to_string(),
         _ => {
             let d = decompose(ev);
             format!("one frame [{} + {}]", event_name(d[0]), event_name(d[1]))
@@ -115,6 +119,7 @@ fn event_inner(ev: usize, sid: u32) -> Vec<u8> {
         14 => share::font_list_from_server(sid, 1002),
         15 => share::font_map_flags(sid, 1002, 0),
         16 => share::share_control(0x1A, 1002, &[0u8; 12]),
+        17 => share::demand_active(SHARE_B, 1002, b"RDP\0", &[], 0),
         _ => share::set_error_info(sid, 1002, 5),
     }
 }
@@ -135,7 +140,7 @@ pub fn event_frame(ev: usize, current_share: u32) -> Vec<u8> {
                 body.extend(event_inner(l, sid));
                 if l == 0 {
                     sid = SHARE_A;
-                } else if l == 1 {
+                } else if l == 1 || l == 17 {
                     sid = SHARE_B;
                 }
             }
@@ -290,6 +295,8 @@ pub fn step(l: &mut Live, ev: usize) -> Result<Key, (String, String)> {
         ]
     };
     let ref_one = |st: u8, sh: u32, e: usize| -> Vec<(u8, u32, Vec<ClientPdu>)> {
+        // a demand-active is a demand-active whatever its capability list holds
+        let e = if e == 17 { 1 } else { e };
         if st == 0 && e <= 1 {
             let x = if e == 0 { SHARE_A } else { SHARE_B };
             return vec![(1, x, finalization(x))];
